@@ -129,7 +129,7 @@ func appendTokensForValue(val cty.Value, toks Tokens) Tokens {
         i := 0
         for it := val.ElementIterator(); it.Next(); {
             eKey, eVal := it.Element()
-            if hclsyntax.ValidIdentifier(eKey.AsString()) {
+            if hclsyntax.ValidIdentifier(eKey.AsString()) && eKey.AsString() != "for" {
                 toks = append(toks, &Token{
                     Type:  hclsyntax.TokenIdent,
                     Bytes: []byte(eKey.AsString()),
